@@ -67,14 +67,34 @@ def routine_names():
     """Routines of the registered sweep: adapters approved by the coordinator (harness/routines_enabled.txt)."""
     from . import algos
 
-    enabled = open(os.path.join(ROOT, "harness", "routines_enabled.txt")).read().split()
+    enabled = []
+    tier = os.environ.get("VERIF_SWEEP_TIER", "quick")
+    for line in open(os.path.join(ROOT, "harness", "routines_enabled.txt")):
+        # "name name ..." applies to every tier, "thorough: name ..." only to the thorough tier
+        if line.startswith("thorough:"):
+            if tier == "thorough":
+                enabled += line.split(":", 1)[1].split()
+        else:
+            enabled += line.split()
     missing = [n for n in enabled if n not in algos.ROUTINES]
     if missing:
         raise tlc.MachineryError(f"enabled routines without adapter: {missing}")
     return sorted(enabled)
 
 
-def _run_worker(name, tier, seed, variant, outdir, timeout=900):
+def _run_worker(name, tier, seed, variant, outdir, timeout=420, attempts=3):
+    """One worker process per routine.  A worker that hangs (observed rarely: an ordered jax.debug.callback
+    inside a jitted sampler never returning under heavy machine load) is killed and re-run; runs are deterministic."""
+    last = None
+    for k in range(attempts):
+        try:
+            return _run_worker_once(name, tier, seed, variant, outdir, timeout * (k + 1))
+        except subprocess.TimeoutExpired as e:
+            last = e
+    raise tlc.MachineryError(f"sweep worker {name} v{variant} timed out {attempts} times: {last}")
+
+
+def _run_worker_once(name, tier, seed, variant, outdir, timeout):
     out = os.path.join(outdir, f"{name}.v{variant}.json")
     env = dict(os.environ)
     env["PYTHONHASHSEED"] = str(variant * 7919 % 4000 + 1) if variant else "0"
@@ -93,6 +113,7 @@ def _run_worker(name, tier, seed, variant, outdir, timeout=900):
 
 def record(tier, seed, variants=(0,), names=None, procs=8):
     """-> dict (name, variant) -> list of traces.  Cached."""
+    os.environ["VERIF_SWEEP_TIER"] = tier
     names = names or routine_names()
     key = cache_key(tier, seed)
     d = os.path.join(CACHE, key)
@@ -247,3 +268,23 @@ def binding_canary(traces, field="obs", ev="add", clause="StoreObs"):
                 raise tlc.MachineryError(f"binding canary: corrupted {ev}.{field} not rejected by clause {clause}")
             return True
     raise tlc.MachineryError(f"binding canary: no trace with an '{ev}' event")
+
+
+def binding_canary_bounds(traces):
+    """Push one recorded action one ulp-step beyond its bound; ActionInBounds must fire."""
+    import copy
+
+    from . import loopbind
+
+    for t in traces:
+        for i, e in enumerate(t["events"]):
+            if e["ev"] == "step" and e.get("actf", {}).get("a"):
+                bad = copy.deepcopy(t)
+                bad["id"] = "canary"
+                af = bad["events"][i]["actf"]
+                af["a"][0] = af["hi"][0] + 3 + bad["cfg"].get("ulpk", 0)
+                out, r, _ = loopbind.validate([bad], tag="canaryb")
+                if "ActionInBounds" not in {c for _, c in out["canary"]["viol"]}:
+                    raise tlc.MachineryError("binding canary: out-of-bounds action not rejected")
+                return True
+    raise tlc.MachineryError("binding canary: no continuous action recorded")
